@@ -190,12 +190,22 @@ structure keepSafe where
 
 /-- rewriter/rewriter.go `type RW struct` -/
 structure RW where
+  Old : Bytes
+  New : Bytes
+  Not : Bytes
+  Max : Int
   old : Bytes
   new : Bytes
   not : Bytes
-  Max : Int
   re : Option RegexpI
   notRe : Option RegexpI
+  deriving Inhabited
+/-- rewriter/rewriter.go error values -/
+def errEmptyOld : Err := some "Rewriter must have non-empty 'old' specification"
+def errMaxTooLow : Err := some "max must be >= -1. use -1 to mean no restriction"
+def errInvalidRegexp : Err := some "Invalid rewriter regular expression"
+def errInvalidNotRegexp : Err := some "Invalid rewriter 'not' regular expression"
+def errInvalidRegexpMax : Err := some "Regular expression rewriters require max to be -1"
 
 /-- matcher/matcher.go `type Matcher struct` (the fields `Match`, `PreMatch`, `MatchRegexAndExpand` read) -/
 structure Matcher where
@@ -369,9 +379,11 @@ structure Env where
   strings_TrimSpace : Bytes → Bytes
   /-- `matcher.New(prefix, notPrefix, sub, notSub, regex, notRegex)`: the matcher (here: its options) or an error -/
   matcher_New : Bytes → Bytes → Bytes → Bytes → Bytes → Bytes → MatcherArgs × Err
+  /-- `regexp.Compile` -/
+  regexp_Compile : Bytes → Option RegexpI × Err
   /-- `destination.New(...)`: the destination (here: the arguments it was built from) or an error -/
   destination_New : Bytes → MatcherArgs → Bytes → Bytes → Bool → Bool → Int → Int → Int → Int → Int → Int → Int → Int → Int → Int → DestP × Err
 instance : Inhabited Env := ⟨⟨fun _ _ _ => default, fun _ _ => default, fun _ => default, fun _ => default, fun _ => default, fun b => b,
-  fun _ _ _ _ _ _ => default, fun _ _ _ _ _ _ _ _ _ _ _ _ _ _ _ _ => default⟩⟩
+  fun _ _ _ _ _ _ => default, fun _ => default, fun _ _ _ _ _ _ _ _ _ _ _ _ _ _ _ _ => default⟩⟩
 
 end Crng.Code
